@@ -53,6 +53,11 @@ func c04Case(r *evid.Run, tier string, idx int, g *rng.R) {
 	o := adoc.GenOpts{MinNodes: 5, MaxNodes: 40, NS: g.Intn(2), Misc: true, NumericText: g.P(60), Unicode: g.P(30)}
 	d := adoc.Generate(g, o)
 	w, err := newWorld(d)
+	if err == nil && idx%4 == 3 {
+		// every fourth case runs the evaluator on the independent Cursor implementation (R-ref)
+		w, err = newRefWorld(d)
+		r.Count("cases_on_reference_cursor", 1)
+	}
 	if err != nil {
 		r.Inconclusive("store tree mismatch: " + err.Error())
 		return
